@@ -997,6 +997,7 @@ func runC13(c *Ctx) {
 	c.omoList("C13")
 	c.omoObj("C13")
 	c.derivedCorners("C13")
+	c.nativeRowsGrow()
 	c.lateDerived("C13")
 	c.rawBytes("C13")
 	c.nativeAfterDerivations()
